@@ -294,7 +294,15 @@ func ferun(c *Ctx) {
 		static := filepath.Join(dir, "static.bin")
 		cr := runAny(mageBin, env, "-compile", static)
 		if cr.status != 0 {
-			// not buildable: report (the oracle says whether the package should have been rejected)
+			// not buildable.  A project the go tool itself rejects (a slip of the generator, e.g. a function named like a
+			// type) says nothing about mage: it is skipped, not compared
+			if strings.Contains(cr.stderr, "error compiling magefiles") {
+				if gv := runCmd(projRoot, env, "go", "vet", "-tags", "mage", "."); gv.status != 0 && !strings.Contains(gv.stderr, "mage_output_file.go") {
+					os.RemoveAll(dir)
+					continue
+				}
+			}
+			// report (the oracle says whether the package should have been rejected)
 			c.Emit(J{"op": "fe.run", "project": p, "fields": fields, "words": []string{}, "conv": J{}}, J{"build": classifyMsg(strings.TrimPrefix(cr.stderr, "Error: ")), "status": cr.status}, "not-built")
 			os.RemoveAll(dir)
 			continue
